@@ -5,6 +5,7 @@
      U,<tid>,<off>,<len>        unlock(offset,length)
      H,<tid>,<id>               unlock(handle of node <id>)
      A,<tid>,<id|->,<off>,<len> adjust_range(handle of node <id> or nullptr, off, len)
+     I,<tid>,<tid2>             photon::thread_interrupt(thread <tid2>) if it is parked in the RangeLock
    Output: one line per case, one segment per op joined by " | ":
      <completion events in order> ; [<off>:<len>#<id>{<waiting tids>} ...]
    (same format as harness/C18/harness.cpp). *)
@@ -30,6 +31,7 @@ let parse_op s =
   | ["L"; t; o; l] -> OTry (z_of_string t, KL, z_of_string o, z_of_string l)
   | ["U"; t; o; l] -> OUnlock (z_of_string t, z_of_string o, z_of_string l)
   | ["H"; t; h] -> OUnlockH (z_of_string t, z_of_string h)
+  | ["I"; t; u] -> OInterrupt (z_of_string t, z_of_string u)
   | ["A"; t; "-"; o; l] -> OAdjust (z_of_string t, None, z_of_string o, z_of_string l)
   | ["A"; t; h; o; l] -> OAdjust (z_of_string t, Some (z_of_string h), z_of_string o, z_of_string l)
   | _ -> failwith "bad op"
